@@ -22,6 +22,8 @@ type c18cfg struct {
 	Bad      bool
 	// a section with a non-nil default: a file version may set a leaf in it and a later one drop it
 	DB *c18db
+	// an untagged leaf whose name ends in a pluralised initialism: only the environment sets it
+	MaxIDs int8
 }
 
 type c18db struct {
@@ -142,11 +144,11 @@ func stubFileSource(cfgPath string, decoder dials.Decoder, watch bool) (dials.So
 func c18run(watch bool) {
 	c18verified = nil
 	c18gotPath = ""
-	for _, v := range []string{"CFGFILE", "A", "B", "BAD", "FROM_FILE"} {
+	for _, v := range []string{"CFGFILE", "A", "B", "BAD", "FROM_FILE", "MAX_IDS", "MAX_I_DS"} {
 		zzverif.Unsetenv(v)
 	}
 	defer func() {
-		for _, v := range []string{"CFGFILE", "A", "B", "BAD", "FROM_FILE"} {
+		for _, v := range []string{"CFGFILE", "A", "B", "BAD", "FROM_FILE", "MAX_IDS", "MAX_I_DS"} {
 			zzverif.Unsetenv(v)
 		}
 	}()
@@ -175,6 +177,7 @@ func c18run(watch bool) {
 	if aSub&2 != 0 {
 		zzverif.Setenv("A", "3")
 	}
+	zzverif.Setenv("MAX_IDS", "5")
 	fl := c18layer{setA: aSub&4 != 0, a: aFlag, setB: bSub&2 != 0, b: bFlag, setBad: badIn == 2}
 	if pathSrc == 3 {
 		fl.setCfg, fl.cfg = true, path
@@ -260,6 +263,7 @@ func c18run(watch bool) {
 	}
 	got := d.View()
 	zzverif.Assert(got.A == wantA && got.B == wantB, "C18 the first visible config is not defaults < file < environment < flags")
+	zzverif.Assert(got.MaxIDs == 5, "C18 the environment layer is missing for an untagged leaf (MaxIDs, variable MAX_IDS)")
 	zzverif.Assert(got.FromFile == hasFile, "C18 the file layer is missing from (or wrongly present in) the first visible config")
 	wantHost := "default-host"
 	if hasFile && watch {
